@@ -3,6 +3,8 @@ from .registry import contract
 from .macros import *
 
 Mj = M + "[j]"
+F9 = ("message_type", "channel", "note", "velocity", "control", "program", "numerator", "denominator", "key")
+SAME9 = lambda a, b: " and ".join(f"{a}.{f} == {b}.{f}" for f in F9)
 R = "result._messages"
 RS = "relative_sequence._messages"
 
@@ -18,12 +20,14 @@ contract("AbsoluteSequence.to_relative_sequence", params={"self": "ref:AbsoluteS
              ("waits_positive", f"forall(0, len({R}), lambda j: implies({IS(R + '[j]', 'WAIT')}, {R}[j].time > 0))"),
              ("events_untimed", f"forall(0, len({R}), lambda j: implies(not {IS(R + '[j]', 'WAIT')}, is_none({R}[j].time) and not {IS(R + '[j]', 'INTERNAL')}))"),
              ("source_kept", f"len({M}) == old(len({M})) and {WF_ABS()}"),
+             ("duration", f"wsum({R}, len({R})) == ite(len({M}) > 0, {M}[len({M}) - 1].time, 0)"),
          ],
          loops={"L0": dict(fingerprint="for msg in self._messages", inv=[
              ("out_fresh", f"fresh(relative_sequence) and fresh({RS}) and {RS} != {M} and {FRESH_LIST(RS)}"),
              ("out_wf", WF_REL(RS)),
              ("out_waits_positive", f"forall(0, len({RS}), lambda j: implies({IS(RS + '[j]', 'WAIT')}, {RS}[j].time > 0))"),
              ("out_events_untimed", f"forall(0, len({RS}), lambda j: implies(not {IS(RS + '[j]', 'WAIT')}, is_none({RS}[j].time) and not {IS(RS + '[j]', 'INTERNAL')}))"),
+             ("duration_so_far", f"wsum({RS}, len({RS})) == current_point_in_time"),
              ("clock", f"current_point_in_time >= 0 and implies(i > 0, current_point_in_time == {M}[i - 1].time) and implies(i == 0, current_point_in_time == 0)"),
              ("source_kept", f"len({M}) == entry(len({M})) and {SORTED()} and {WF_ABS()} and forall(0, len({M}), lambda j: allocated({Mj}) and not fresh({Mj}))"),
          ])},
